@@ -110,6 +110,7 @@ def _parse_tuple_tail(s):
 
 
 def validate_chunk(workdir, idx, records, focus="ALL", timeout=900):
+    timeout = max(timeout, 900 + len(records) // 4)          # very long uncut sessions get more time
     """Validate one chunk (a list of records starting with a cfg record).  Returns
     (verdicts, knowns, steps, stats, raw_output)."""
     path = os.path.join(workdir, "trace_%d.ndjson" % idx)
